@@ -135,7 +135,13 @@ func c03Steps(full bool) func(n *Node) []Step {
 				add(Run("reset", m, fmt.Sprintf("HEAD@{%d}", i)), pt...)
 			}
 		}
-		for _, s := range []Step{Run("add", "@ROOT@/.goit/objects"), Run("add", "@ROOT@"), Run("rm", ".goit/objects"), Run("add", "a"), Run("add", "d"), Run("add", "nope"), Run("rm", "a"), Run("rm", "nope"),
+		if full || n.Depth <= 1 {
+			// absolute spellings of the metadata directory and of the working tree (quick: near the seeds only)
+			for _, s := range []Step{Run("add", "@ROOT@/.goit/objects"), Run("add", "@ROOT@"), Run("rm", ".goit/objects")} {
+				add(s)
+			}
+		}
+		for _, s := range []Step{Run("add", "a"), Run("add", "d"), Run("add", "nope"), Run("rm", "a"), Run("rm", "nope"),
 			Run("restore", "a"), Run("restore", "--staged", "a"), Run("restore", "--staged", "d"), Run("restore", "nope"), Run("commit", "-m", "m"), Run("write-tree")} {
 			add(s)
 		}
